@@ -7,7 +7,9 @@ trailing loop parses its right operand without infix operators and the loop fold
 (/verif/patches/parser-fix-left-assoc.diff). On the pinned tree the property is violated
 (`10 - 1 - 1 - 1` is parsed as `(10 - (1 - 1)) - 1`): `pinned_chain_wrong` below.
 
-Operands ("atoms") are the expressions `e` with `ParseLemmas.WF true e`: integer literals, variables,
+Operands ("atoms") are the expressions `e` with `ParseLemmas.WF true e`: integer literals (every
+i64 value: `ParseLemmas.intTok_of_i64` proves that the decimal text of every i64 is read back by the
+parser as that value, so there is no hypothesis about integer tokens), variables,
 calls `f(a, …)` whose arguments are arbitrary chains, and parenthesised chains, nested to any depth.
 `ParseLemmas.reach` proves the operand hypothesis (`ReachAll true e n`: from the first token of the
 operand the parser gets back into the trailing loop holding exactly `e`) for all of them.
@@ -113,8 +115,8 @@ theorem paren_tokens (ln : Nat) (first : Bool) (a inner : Expr) (op : String) (h
 
 /-! ### Hypotheses are satisfiable; the pinned parser is wrong -/
 
-theorem intTok_10 : IntTok (toString (10 : Int)) 10 := ⟨by decide, by decide, by decide, by decide, by decide⟩
-theorem intTok_1 : IntTok (toString (1 : Int)) 1 := ⟨by decide, by decide, by decide, by decide, by decide⟩
+theorem intTok_10 : I64 10 := ⟨by decide, by decide⟩
+theorem intTok_1 : I64 1 := ⟨by decide, by decide⟩
 theorem validName_f : ValidName "f" := ⟨by decide, by decide, by decide, by decide⟩
 
 /-- `10 - 1 - f(1 * 10) - (1 - 1)` satisfies the hypotheses of `chain_left_assoc`. -/
